@@ -11,7 +11,7 @@ package acl
 //@ pred ruleAllows(rr Rules, i int, action Action, secret string) {
 //@   (exists j int :: 0 <= j && j < len(rr[i].Action) && rr[i].Action[j] == action) &&
 //@   (exists k int :: 0 <= k && k < len(rr[i].Secret) && globMatch(str(rr[i].Secret[k]), secret)) }
-//@ pred allows(rr Rules, action Action, secret string) {
+//@ opaque pred allows(rr Rules, action Action, secret string) {
 //@   exists i int :: 0 <= i && i < len(rr) && ruleAllows(rr, i, action, secret) }
 
 //@ func (Secret).Match(pat, val) (res)
